@@ -90,6 +90,9 @@ func main() {
 		}()
 		env := rules.NewEnv(run)
 		spec.Run(env)
+		if *tier == "thorough" {
+			rules.Thorough(env, *prop, spec)
+		}
 	}()
 	code := run.Finish()
 	pprof.StopCPUProfile()
